@@ -676,11 +676,20 @@ class Taint:
             if e.get("op") == "/":
                 return self.tainted(f, e["c"][0], depth + 1)
             return any(self.tainted(f, c, depth + 1) for c in e.get("c", []))
+        if k == "ConditionalOperator":
+            c = strip_all(e["c"][0])
+            a, b = e["c"][1], e["c"][2]
+            # min idiom: (x < y) ? x : y  /  (x > y) ? y : x  - bounded by both operands
+            if c is not None and c.get("k") == "BinaryOperator" and c.get("op") in ("<", "<=", ">", ">="):
+                l, r = c["c"][0], c["c"][1]
+                is_min = (c["op"] in ("<", "<=") and same_expr(a, l) and same_expr(b, r)) or \
+                         (c["op"] in (">", ">=") and same_expr(a, r) and same_expr(b, l))
+                if is_min:
+                    return self.tainted(f, a, depth + 1) and self.tainted(f, b, depth + 1)
+            return self.tainted(f, a, depth + 1) or self.tainted(f, b, depth + 1)
         if k in ("UnaryOperator", "CStyleCastExpr", "CXXStaticCastExpr", "CXXFunctionalCastExpr", "ImplicitCastExpr",
-                 "ParenExpr", "ConditionalOperator"):
+                 "ParenExpr"):
             cs = e.get("c", [])
-            if k == "ConditionalOperator":
-                cs = cs[1:]
             return any(self.tainted(f, c, depth + 1) for c in cs)
         return False
 
